@@ -916,7 +916,7 @@ class BaseRequest:
 
         clen = self.content_length
 
-        if clen is not None and clen != 0:
+        if clen is not None and clen > 0:
             return True
         elif clen is None:
             # Rely on the special flag that signifies that either Chunked
